@@ -205,13 +205,40 @@ func TestVerifC05(t *testing.T) {
 	k := vNewKit(t, "C05")
 	defer k.close()
 	runCase := func(c vSx) (res vC05Result) {
-		if !c.isList() || len(c.l) != 2 || !c.l[0].isInt() {
+		if !c.isList() || len(c.l) < 2 || !c.l[0].isInt() {
 			return vC05Result{obs: vL(vZ(-1))}
 		}
 		var obs vSx
 		var fl *vC05Fail
 		nontrivial := false
+		if code := c.l[0].i64(); (code <= 2 && len(c.l) != 2) || (code == 3 && len(c.l) != 4) || (code == 4 && len(c.l) != 3) {
+			return vC05Result{obs: vL(vZ(-1))}
+		}
 		switch c.l[0].i64() {
+		case 3:
+			old, ok := vC05FromSx(c.l[2])
+			if !ok || !c.l[1].isInt() || !c.l[3].isBytes() {
+				return vC05Result{obs: vL(vZ(-1))}
+			}
+			obs, fl = vC05RunRecv(c.l[1].int(), old, c.l[3].b)
+			nontrivial = vC05HoldsValue(old)
+			res.count("kind", "receiver-reuse")
+			res.count("receiver-kind", fmt.Sprint(old.kind))
+			if len(obs.l) > 0 && obs.l[0].i64() == 0 {
+				res.count("receiver-result", "ok")
+			} else {
+				res.count("receiver-result", "err")
+			}
+		case 4:
+			old, ok := vC05FromSx(c.l[1])
+			if !ok || !c.l[2].isBytes() {
+				return vC05Result{obs: vL(vZ(-1))}
+			}
+			var steps int
+			obs, fl, steps = vC05RunStream(old, c.l[2].b)
+			nontrivial = steps >= 2
+			res.count("kind", "receiver-stream")
+			res.count("stream-values", fmt.Sprint(steps))
 		case 0:
 			n, ok := vC05FromSx(c.l[1])
 			if !ok {
@@ -313,7 +340,11 @@ func TestVerifC05(t *testing.T) {
 	}
 	n := k.N(4000, 120000)
 	for i := 0; i < n; i++ {
-		switch x := r.intn(24); {
+		switch x := r.intn(28); {
+		case x >= 26:
+			runOne(vC05GenStream(r))
+		case x >= 24:
+			runOne(vC05GenRecv(r))
 		case x >= 20:
 			runOne(vC05GenHist(r))
 		case x < 8:
